@@ -283,6 +283,20 @@ def run(tier, seed, replay):
                 expect.append(("value", complex(_inner.inner_op_dia(Lk, OPd, Rk, flag))))
                 lines.append("C01.inner_dia " + json.dumps({"left": dia_json(L2), "right": dia_json(Rk), "scalar_is_ket": flag}))
                 expect.append(("value", complex(_inner.inner_dia(L2, Rk, flag))))
+        # isherm_dia: Hermitian, non-Hermitian and nearly Hermitian matrices with their diagonals stored in any order
+        if shape[0] == shape[1]:
+            herm = a + a.conj().T
+            near = herm.copy()
+            near[int(rng.integers(0, shape[0])), int(rng.integers(0, shape[0]))] += 1j
+            cands = [herm, a, near, np.diag(np.diag(herm)), np.triu(herm)]
+        else:
+            cands = [a]
+        _props = importlib.import_module("qutip.core.data.properties")
+        for cand in cands:
+            for _ in range(2):
+                Dh = messy_unique(cand)
+                lines.append("C01.isherm_dia " + json.dumps({"a": dia_json(Dh)}))
+                expect.append(("isherm", bool(_props.isherm_dia(Dh)), bool(np.array_equal(cand, cand.conj().T)) and shape[0] == shape[1]))
     model = core.run_driver(lines)
     ndis, first = 0, None
     for line, ex, m in zip(lines, expect, model):
@@ -308,6 +322,11 @@ def run(tier, seed, replay):
         elif ex[0] == "dense_of_csr":
             if not np.array_equal(dec(m["assign"]), ex[1]):
                 bad = {"model": m["assign"], "impl": str(ex[1].tolist())}
+        elif ex[0] == "isherm":
+            if bool(m["isherm"]) != ex[1]:
+                bad = {"model": m["isherm"], "impl": ex[1]}
+            if ex[1] != ex[2]:
+                v("isherm_dia:any-order", f"isherm_dia answers {ex[1]} for a matrix that is {'Hermitian' if ex[2] else 'not Hermitian'} (diagonals stored in shuffled order)", {"op": line[:400]})
         elif ex[0] == "value":
             if complex(m["value"][0], m["value"][1]) != ex[1]:
                 bad = {"model": m["value"], "impl": str(ex[1])}
